@@ -222,8 +222,10 @@ let handle (toks : string list) : string =
             (t', w')
         | _ -> failwith "step") (0, empty_world) steps in
       if !out = [] then "-" else String.concat " ; " (List.rev !out)
-  | ["E"; flags; now; srcs; dsts; extra] ->
-      (* one run of the one-way engine; extra = further universe paths (parents the run may create) *)
+  | "E" :: flags :: now :: srcs :: dsts :: extra :: keeprest ->
+      (* one run of the one-way engine; extra = further universe paths (parents the run may create);
+         optional 7th token: paths the scan found but a filter / size bound / resume state kept out of the run *)
+      let keepstr = (match keeprest with [k] -> k | _ -> "-") in
       let kv = kv_of flags in
       let g k = List.assoc k kv in
       let b k = g k = "1" in
@@ -237,7 +239,9 @@ let handle (toks : string list) : string =
       let u = List.fold_left (fun acc p -> if List.mem p acc then acc else acc @ [p]) [] (dorder @ List.map (fun e -> e.se_path) src @ ex) in
       let refuse d n t = Z.ltb (Z.mul t n) (Z.mul (z_of_int 100) d) in
       let ds p = (match Hashtbl.find_opt dirstat (str_of_path p) with Some x -> x | None -> (n_of_int 4096, Z0)) in
-      let r = run refuse ds c (zint now) u src dst in
+      let keep = if keepstr = "-" then [] else List.map (fun p ->
+        { se_path = path_of_str p; se_is_dir = false; se_size = N0; se_mtime = Z0; se_content = N0; se_sparse = false }) (String.split_on_char ',' keepstr) in
+      let r = run refuse ds c (zint now) u keep src dst in
       Printf.sprintf "refused=%d exit=%d errs=%s evs=%s dst=%s"
         (if r.r_refused then 1 else 0) (int_of_z (exit_status c r))
         (if r.r_errors = [] then "-" else String.concat "," (List.map (fun ((p, a), e) -> Printf.sprintf "%s:%s:%s" (str_of_path p) (act_str a) (err_str e)) r.r_errors))
